@@ -67,7 +67,8 @@ class Tracker:
         self.cache = PageCache(c["page_size"], c["max_pages"]) if c else None
 
     def fd_file(self, k):
-        if k < len(self.fds) and self.fds[k][1]:
+        """file of an open, buffered descriptor (O_DIRECT descriptors bypass the page cache)"""
+        if k < len(self.fds) and self.fds[k][1] and not (len(self.fds[k]) > 2 and self.fds[k][2]):
             return self.fds[k][0]
         return None
 
@@ -136,8 +137,9 @@ def to_model(case, obs):
             tr.now = c[1]
             continue
         if n == "open":
-            tr.fds.append([c[1], True])
-            mode = {"rw": 3, "r": 1, "w": 2}[c[2] if len(c) > 2 else "rw"]
+            mstr = c[2] if len(c) > 2 else "rw"
+            tr.fds.append([c[1], True, mstr.endswith("d")])
+            mode = {"rw": 3, "r": 1, "w": 2}[mstr.rstrip("d")]
             evs.append("CFs (x_open %d %d %d)" % (len(tr.fds) - 1, c[1], mode))
         elif n == "close":
             tr.fds[c[1]][1] = False
@@ -269,6 +271,8 @@ def oracle(case, obs):
     cache = cfg.get("cache") is not None
     now = 0
     rings = []      # {"depth","sqn","sq":[..],"alive","out":[entry..]}
+    direct_fds = set()     # descriptor numbers opened O_DIRECT: they never hit the page cache
+    nopen = 0
     crashed_before = 0
     io = obs["obs"]
 
@@ -279,6 +283,10 @@ def oracle(case, obs):
         n = c[0]
         if n == "now":
             now = c[1]
+        elif n == "open":
+            if len(c) > 2 and c[2].endswith("d"):
+                direct_fds.add(nopen)
+            nopen += 1
         elif n == "new":
             if c[1] == 0:
                 if o != -1:
@@ -344,8 +352,9 @@ def oracle(case, obs):
                     e["min_at"] = now
                 else:
                     e["expect"] = None
-                    e["min_at"] = now + (min(L, CACHE_HIT_NS) if (cache and e["op"][0] == "read") else L)
-                e["max_at"] = e["min_at"] if e["expect"] is not None else now + (max(L, CACHE_HIT_NS) if (cache and e["op"][0] == "read") else L)
+                    e["cached_read"] = cache and e["op"][0] == "read" and e["op"][1] not in direct_fds
+                    e["min_at"] = now + (min(L, CACHE_HIT_NS) if e["cached_read"] else L)
+                e["max_at"] = e["min_at"] if e["expect"] is not None else now + (max(L, CACHE_HIT_NS) if e.get("cached_read") else L)
                 r["acc"].append(e)
             r["sq"] = []
         elif n == "sync":
@@ -856,6 +865,43 @@ def exhaustive_rings():
                 cfg = {"mode": "direct", "seed": len(out), "lat_ns": L, "cache": None, "nfiles": 1}
                 out.append({"cfg": cfg, "script": s, "flavour": "rings-exhaustive", "full_drain": True})
     return out
+
+
+def gen_direct_io(rng):
+    """Page cache on, latency well above the hit latency, O_DIRECT and buffered descriptors on the
+    same file: repeated reads (and writes) of one page through both kinds of descriptor.  An
+    O_DIRECT operation never hits the cache: it is never visible before the configured latency."""
+    L = rng.choice([1000, 5000])
+    ps = rng.choice([8, 4096])
+    cfg = {"mode": "direct", "seed": rng.randrange(1 << 30), "lat_ns": L,
+           "cache": {"page_size": ps, "max_pages": rng.choice([2, 4, 8])}, "nfiles": 1}
+    s = [["open", 0, "rwd"], ["open", 0, rng.choice(["rw", "rwd"])], ["new", 8]]
+    now = 0
+    ud = 10
+    for _ in range(rng.randrange(2, 6)):
+        t0 = now
+        for _ in range(rng.choice([1, 2, 3])):
+            ud += 1
+            k = rng.choice([0, 0, 1])
+            off = rng.choice([0, 0, 1, 2, ps])
+            if rng.random() < 0.7:
+                op = ["read", k, off, rng.choice([1, 2, 4])]
+            else:
+                op = ["write", k, off, [ud % 250 + 1]]
+            s.append(["push", 0, op, ud, 0])
+        s.append(["submit", 0, 0])
+        for dt in sorted(set(rng.sample([99, 100, 101, L // 2, L - 1, L], rng.choice([2, 3])))):
+            now = t0 + dt
+            s.append(["now", now])
+            if rng.random() < 0.6:
+                s += [["cq_new", 0], ["sync", 0]] + [["next", 0]] * rng.choice([0, 1, 4])
+            else:
+                s.append(["readable", 0])
+        now = t0 + L
+        s += [["now", now], ["cq_new", 0], ["sync", 0]] + [["next", 0]] * 4
+    now += 2 * L
+    s += [["now", now], ["cq_new", 0], ["sync", 0]] + [["next", 0]] * 16 + [["dump", 0]]
+    return {"cfg": cfg, "script": s, "flavour": "direct-io", "full_drain": True}
 
 
 def gen_cache(rng):
